@@ -104,7 +104,7 @@ fn native_fields(rd: &Rd) -> Option<Vec<Field>> {
 fn field_nalts(f: &Field) -> usize {
     match f {
         Field::Name(_) => 2, // 1 relative/@, 2 \DDD on the first octet
-        Field::Str(_) => 3,  // 1 unquoted, 2 quoted all-decimal, 3 quoted raw
+        Field::Str(_) => 4,  // 1 unquoted, 2 quoted all-decimal, 3 quoted raw, 4 unquoted with the first character as \\X
         Field::Ip6(_) => 3,  // 1 full, 2 upper case, 3 dotted-quad tail
         Field::Proto(_) => 2, // 1 mnemonic, 2 lower-case mnemonic
         Field::Int(_) | Field::Octal(_) | Field::Ip4(_) => 0,
@@ -262,7 +262,7 @@ fn rdata_words(i: usize, r: &Rec, ch: &Choices, ctx: &Context) -> Option<Vec<(Ve
                 _ => (name_abs(n, NameEsc::DecFirst)?, 0),
             },
             Field::Str(s) => {
-                let form = [StrForm::Quoted, StrForm::Unquoted, StrForm::QuotedAllDec, StrForm::QuotedRaw][alt];
+                let form = [StrForm::Quoted, StrForm::Unquoted, StrForm::QuotedAllDec, StrForm::QuotedRaw, StrForm::UnquotedEscFirst][alt];
                 let (t, lfs) = charstr_text(s, form)?;
                 if form == StrForm::QuotedRaw && t == charstr_text(s, StrForm::Quoted)?.0 {
                     return None; // identical to the default rendering
